@@ -84,7 +84,17 @@ func QuietControl() *core.Control {
 	return c
 }
 
+// SharedCtx, when set, is the one context every request of the current run
+// uses (a caller that keeps its context and changes the keys on it between
+// requests); NewCtx then returns it with the given credentials.
+var SharedCtx *core.Context
+
 func NewCtx(p Prot) *core.Context {
+	if SharedCtx != nil {
+		SharedCtx.ReadKey = p.RK
+		SharedCtx.WriteKey = p.WK
+		return SharedCtx
+	}
 	ctx := core.BenchContext("sim")
 	ctx.ReadKey = p.RK
 	ctx.WriteKey = p.WK
